@@ -19,7 +19,7 @@ from harnesses.c01_documents import OUT, STUBS, _fns
 NOT_REPLAYABLE = {"pause", "subscribe", "unsubscribe", "stage", "unstage", "monitor", "unmonitor", "open_run", "close_run", "install_suspender",
                   "remove_suspender", "_start_suspender"}
 IMPLICIT = {"checkpoint", "stage", "unstage", "monitor", "unmonitor", "subscribe", "unsubscribe", "close_run"}
-NOPS = 14
+NOPS = 15
 
 
 def build(prog):
@@ -31,7 +31,8 @@ def build(prog):
         m, sig = Motor("m1", lab), Signal("sig", lab)
         det = Det("det", lab, [m])
         sdet = StatusStageDet("sdet", lab, [m])
-        devices = dict(m1=m, sig=sig, det=det, sdet=sdet)
+        extra = Det("extra", lab, [m])
+        devices = dict(m1=m, sig=sig, det=det, sdet=sdet, extra=extra)
 
         def plan():
             st = dict(staged=False, sstaged=False, mon=False, sub=None, rew=True)
@@ -88,6 +89,8 @@ def build(prog):
                     yield Msg("null", None, "x2")
                     yield Msg("null", None, "x3")
                     yield Msg("rewindable", None, True)
+                elif op == 14:  # unstage of a device this call never staged (legal: an implicit checkpoint all the same)
+                    yield Msg("unstage", extra)
                 elif op == 12:
                     yield Msg("unstage" if st["sstaged"] else "stage", sdet, group="s")
                     yield Msg("wait", None, group="s")
@@ -187,6 +190,15 @@ def oracle(obs, helper_msg=lambda m: False):
         elif stack and m.command not in HELPER and not helper_msg(m):
             tags.append("plan-continued-before-the-replay-finished")
         seen.add(id(m))
+    kw = getattr(obs, "msg_kw", None)
+    if kw:
+        first = {}
+        for i, m in enumerate(msgs):
+            if id(m) in first:
+                if kw[i] != kw[first[id(m)]]:
+                    tags.append("replayed-message-differs-from-the-one-executed-before")
+            else:
+                first[id(m)] = i
     expected_since(msgs, set(rewind_at), tags)
     while stack and not stack[-1]:
         stack.pop()
@@ -236,7 +248,7 @@ def make(P):
     return h
 
 
-SYM = ("generated plan: L symbolic opcodes (14 kinds incl. a whole non-rewindable region with a sleep inside: null, checkpoint, rewindable off/on, stage|unstage, monitor|unmonitor, subscribe|unsubscribe, "
+SYM = ("generated plan: L symbolic opcodes (15 kinds incl. an unstage of a device the call never staged; incl. a whole non-rewindable region with a sleep inside: null, checkpoint, rewindable off/on, stage|unstage, monitor|unmonitor, subscribe|unsubscribe, "
        "close_run+open_run, set+wait, create/read/save, sleep, trigger+wait, stage|unstage of a device whose stage() returns a Status; the two-interruption quick tier uses 6 of them) in a fixed skeleton; a pause (resumed) or 1 s suspension at loop step k1 in [0,T+2]; "
        "optionally a second interruption within `window` steps")
 register(Harness("c04_replay", "C04", make, {"quick": dict(L=2, shards=32, budget_s=300, per_path_s=30), "thorough": dict(L=3, shards=96, budget_s=3000, per_path_s=30)},
